@@ -363,7 +363,102 @@ static int verify(struct st *s, int di)
         if (D->v[k].present && !seen[k])
             SEQX_FAIL("iterate:present-not-visited", "dict %d: key %d (%s/type %d) is present but iteration skipped it", di + 1, k,
                       K[k].name ? K[k].name : "shorthand", K[k].type);
+    /* the iteration is resumed from a (name, type) pair: the caller may pass its own copy of the name, not the pointer it was
+     * given (documented: "name of the attribute"); the walk must be the same */
+    struct {
+        uint8_t before[8]; /* what lies in front of the caller's string is none of the dictionary's business */
+        char name[24];
+    } own;
+    memset(&own, 0, sizeof(own));
+    own.before[5] = UDICT_TYPE_STRING, own.before[6] = 0, own.before[7] = 3;
+    const char *n1 = NULL, *n2 = NULL;
+    enum udict_type t1 = UDICT_TYPE_END, t2 = UDICT_TYPE_END;
+    for (int step = 0; step <= visited; step++) {
+        udict_iterate(D->d, &n1, &t1);
+        udict_iterate(D->d, &n2, &t2);
+        if (t1 != t2 || (t1 != UDICT_TYPE_END && ((n1 == NULL) != (n2 == NULL) || (n1 != NULL && strcmp(n1, n2)))))
+            SEQX_FAIL("iterate:depends-on-name-pointer", "dict %d: step %d of the iteration gives (%s, type %d) when resumed with the caller's copy of the name and (%s, type %d) with the returned pointer",
+                      di + 1, step, n2 ? n2 : "-", t2, n1 ? n1 : "-", t1);
+        if (t1 == UDICT_TYPE_END)
+            break;
+        if (n2 != NULL) {
+            snprintf(own.name, sizeof(own.name), "%s", n2);
+            n2 = own.name;
+        }
+    }
     return SEQX_OK;
+}
+
+/* ---- sweep, once per distinct state: uref_attr_copy_<type>() of every key from the other dictionary (an empty one when there is
+ * none) into a duplicate of the first: afterwards the key is what the source holds - absent when the source lacks it -, every other
+ * key is untouched ---- */
+#include "upipe/uref.h"
+#include "upipe/uref_attr.h"
+static int attr_copy(struct uref *dst, struct uref *src, int k)
+{
+    enum udict_type t = K[k].type;
+    const char *n = K[k].name;
+    switch (K[k].base) {
+    case UDICT_TYPE_OPAQUE: return uref_attr_copy_opaque(dst, src, t, n);
+    case UDICT_TYPE_STRING: return uref_attr_copy_string(dst, src, t, n);
+    case UDICT_TYPE_VOID: return uref_attr_copy_void(dst, src, t, n);
+    case UDICT_TYPE_BOOL: return uref_attr_copy_bool(dst, src, t, n);
+    case UDICT_TYPE_SMALL_UNSIGNED: return uref_attr_copy_small_unsigned(dst, src, t, n);
+    case UDICT_TYPE_SMALL_INT: return uref_attr_copy_small_int(dst, src, t, n);
+    case UDICT_TYPE_UNSIGNED: return uref_attr_copy_unsigned(dst, src, t, n);
+    case UDICT_TYPE_INT: return uref_attr_copy_int(dst, src, t, n);
+    case UDICT_TYPE_FLOAT: return uref_attr_copy_float(dst, src, t, n);
+    case UDICT_TYPE_RATIONAL: return uref_attr_copy_rational(dst, src, t, n);
+    default: return UBASE_ERR_INVALID;
+    }
+}
+
+static int c10_sweep(void *p)
+{
+    struct st *s = p;
+    if (s->cumem.fail_in != 0 || s->d[0].d == NULL)
+        return SEQX_OK; /* an armed refusal belongs to the next operation of the history */
+    struct dict *d1 = &s->d[0], *d2 = &s->d[1];
+    struct udict *empty = d2->d == NULL ? udict_alloc(s->mgr, 0) : NULL;
+    struct uref usrc;
+    memset(&usrc, 0, sizeof(usrc));
+    usrc.udict = d2->d ? d2->d : empty;
+    int r = SEQX_OK;
+    for (int k = 0; k < g_nkeys && r == SEQX_OK; k++) {
+        struct uref udst;
+        memset(&udst, 0, sizeof(udst));
+        udst.udict = udict_dup(d1->d);
+        if (udst.udict == NULL)
+            break;
+        int err = attr_copy(&udst, &usrc, k);
+        const struct val *want = d2->d ? &d2->v[k] : NULL;
+        bool want_present = want != NULL && want->present;
+        if (!ubase_check(err)) {
+            snprintf(seqx_sig, sizeof(seqx_sig), "attr-copy:error");
+            snprintf(seqx_msg, sizeof(seqx_msg), "uref_attr_copy of key %d returned %d", k, err);
+            r = SEQX_VIOL;
+        }
+        for (int j = 0; j < NK && r == SEQX_OK; j++) {
+            if (j != k && j != (k + 1) % NK && j != (k + NK - 1) % NK)
+                continue; /* the key itself and its two neighbours in the table (same name / other type, prefixes) */
+            struct val got;
+            api_get(udst.udict, j, &got);
+            const struct val *exp = j == k ? want : &d1->v[j];
+            bool exp_present = j == k ? want_present : d1->v[j].present;
+            bool ok = got.present == exp_present && (!exp_present || val_eq(&got, exp, K[j].base));
+            free(got.b);
+            if (!ok) {
+                snprintf(seqx_sig, sizeof(seqx_sig), j == k ? (exp_present ? "attr-copy:wrong-value" : "attr-copy:stale-value-kept") : "attr-copy:other-attribute-changed");
+                snprintf(seqx_msg, sizeof(seqx_msg), "after uref_attr_copy of key %d (%s/type %d; source %s it): key %d is %s in the destination", k,
+                         K[k].name ? K[k].name : "shorthand", K[k].type, want_present ? "holds" : "lacks", j, got.present ? "present" : "absent");
+                r = SEQX_VIOL;
+            }
+        }
+        udict_free(udst.udict);
+    }
+    if (empty)
+        udict_free(empty);
+    return r;
 }
 
 static int c10_apply(void *p, int opi, bool check)
@@ -628,6 +723,7 @@ int main(int argc, char **argv)
         .opstr = c10_opstr,
         .nontrivial = c10_nontrivial,
         .final_check = c10_final,
+        .sweep = c10_sweep,
     };
     int r = seqx_main(&spec, argc, argv, depth);
     v_stat("alphabet", g_nops);
